@@ -1,5 +1,6 @@
 import GnarkVerif.Model.Sig
 import GnarkVerif.Model.SigParams
+import GnarkVerif.Model.SigScript
 /-
 C12 line protocol.  `C12 <OP> <instance> args…`
 
@@ -16,6 +17,8 @@ ECDSA   ECP, ECV, ECVB (= ECV; triples built backwards from a chosen R), ECVINF 
         ECPKL <bytes>                                   PublicKey.SetBytes on a buffer longer than the key: `n x y re-encoding`
         ECSGN <hash> <sk> <entropy> <k> <msg> <oin> <oout>   Sign (crypto/rand yields <entropy>, which makes the nonce <k>) then Verify: `signature-bytes verdict`
         INV <q> <a>                                     the Euclid inverse of the model, and whether it equals the Fermat one
+Histories EDSCR / ECSCR <step> <step> …                       a script over key / buffer / hasher objects (grammar: `tools/harness/c12_hist.go`), interpreted
+                                                        with value semantics by `Model/SigScript.lean`: one output token per step
 `<hash>` ∈ sha256 | mimc | nil | const (a hash.Hash whose Sum is always `<oout>`); for mimc `<oin>` are the recorded writes (`:`-separated) and `<oout>` the recorded sum.
 -/
 namespace GV.SigOps
@@ -48,9 +51,25 @@ def edParamsLine (P : EdParams) : List String :=
 def edCanonical (P : EdParams) (buf : Bytes) : Bool :=
   P.yRaw buf < P.q && !(P.signBit buf && (P.decompress (sqrtF P.q) buf).1 == 0)
 
+/-- the EdDSA instance as a script scheme: private key = (A, scalar, randSrc), public key = A -/
+def edScheme (P : EdParams) : SigScript.Scheme where
+  SK := (Nat × Nat) × Nat × Bytes
+  PK := Nat × Nat
+  skParse b := (P.skParse (sqrtF P.q) b).map (fun (n, A, sc, rs) => (n, (A, sc, rs)))
+  skBytes k := P.compress k.1 ++ natToBE P.size k.2.1 ++ k.2.2
+  pub k := k.1
+  pkParse b := P.pkParse (sqrtF P.q) b
+  pkBytes A := P.compress A
+  hash kind oin oout := mkHash kind P.size P.q oin oout
+  sign H k nonce m := P.sign P.smulFast H k.1 k.2.1 (parseHexD nonce) m
+  signRec _ _ _ _ := .error .oracle
+  verify H A sig m := P.verify P.smulFast (sqrtF P.q) H A sig m
+  recover _ _ _ _ := .error .oracle
+
 def handleEd (P : EdParams) (op : String) (a : List String) : String :=
   let sq := sqrtF P.q
   match op, a with
+  | "EDSCR", steps => SigScript.run (edScheme P) steps
   | "EDP", ps =>
     if ps ≠ edParamsLine P then "params-differ"
     else if !(P.onCurve P.B) then "base-off-curve"
@@ -121,8 +140,31 @@ def ecParamsLine (P : ECParams) : List String :=
 
 def showAff (Q : Pt Nat) : String := let (x, y) := ECParams.toAffine Q; hexN [x, y]
 
+/-- the nonce token `<entropy>/<k>` of an ECDSA sign step -/
+def ecNonceTok (t : String) : Nat :=
+  match t.splitOn "/" with
+  | [_, k] => parseHexD k
+  | _ => 0
+
+/-- the ECDSA instance as a script scheme: private key = (Q, d), public key = Q -/
+def ecScheme (P : ECParams) : SigScript.Scheme where
+  SK := Pt Nat × Nat
+  PK := Pt Nat
+  skParse b := (P.skParse P.smulFast b).map (fun (n, Q, d) => (n, (Q, d)))
+  skBytes k := P.pkBytes k.1 ++ natToBE P.frBytes k.2
+  pub k := k.1
+  pkParse b := (P.pubParse P.smulFast b).map (fun Q => (P.pkSize, Q))
+  pkBytes Q := P.pkBytes Q
+  hash kind oin oout := mkHash kind P.mimcSize P.mimcQ oin oout
+  sign H k nonce m := P.sign P.smulFast H k.2 (ecNonceTok nonce) m
+  signRec H k nonce m :=
+    (P.signRecover P.smulFast H k.2 (ecNonceTok nonce) m).map (fun (v, r, s) => toHex v ++ ":" ++ toHex r ++ ":" ++ toHex s)
+  verify H Q sig m := if Q.isNone then .error .pkInfinity else P.verify P.smulFast H Q sig m
+  recover d v r s := P.recover P.smulFast d v r s
+
 def handleEc (P : ECParams) (op : String) (a : List String) : String :=
   match op, a with
+  | "ECSCR", steps => SigScript.run (ecScheme P) steps
   | "ECP", ps =>
     if ps ≠ ecParamsLine P then "params-differ"
     else if !(P.E.onCurve P.G) then "base-off-curve"
